@@ -336,4 +336,14 @@ def linked (rd : RegionData) (rec : BioRecord) : Bool :=
   linkedKind "subregion" (·.q.subNumber) (subDict rd) rec &&
   (protoAreas rd ++ candDict rd ++ subDict rd).all fun a => areaShape rec.length rd a.2
 
+/-- KF-C12-abutting-exons: a feature that `offset_location` has to re-assemble (one running over the origin, or
+    one after the origin whose end lands on the file's end) has three exons in a row each ending where the next
+    starts; the merge step keeps `previous.start` instead of the start of what it merged so far and drops bases -/
+def chainLoses (rd : RegionData) (rec : BioRecord) : Bool :=
+  let L := rec.length
+  rd.crossesOrigin && rec.features.any fun f =>
+    if bridgesOrigin f.loc then !chainFree (rotPieces L (-rd.start) f.loc)
+    else decide (0 ≤ f.loc.start) && decide (f.loc.end ≤ rd.end) && !offsetTrivial f.loc (L - rd.start) L &&
+         !chainFree (rotPieces L (L - rd.start) f.loc)
+
 end ASV.RegionExtract
